@@ -90,8 +90,8 @@ def exc_signature(ex):
   while tb is not None:
     fn = tb.tb_frame.f_code.co_filename
     if os.path.abspath(fn).startswith(REPO + os.sep):
-      # (which function of a recursion runs out of stack first is incidental: name the file only)
-      where = "%s:%s" % (os.path.relpath(fn, REPO), '*' if isinstance(ex, RecursionError) else tb.tb_frame.f_code.co_name)
+      # (which function - and, in a mutual recursion of several parsers, which file - runs out of stack first is incidental: name the package only)
+      where = "%s:%s" % (os.path.relpath(fn, REPO), tb.tb_frame.f_code.co_name) if not isinstance(ex, RecursionError) else os.path.dirname(os.path.relpath(fn, REPO)) + '/*'
     tb = tb.tb_next
   return "exc:%s@%s" % (type(ex).__name__, where or 'harness')
 
